@@ -152,6 +152,9 @@ def c04(ctx):
         ctx.model_check("Wal.tla", "cfg/wal_crash3_t.cfg", timeout=3000)
     rejs = regress(ctx) + fault_family(ctx, "crash-epochs", "crash", CORES // 2, 10 if q else 100, 25, ["-epochs", "-twice", "-depth", "1"])
     rejs += fault_family(ctx, "crash-epochs-failopen", "crash", CORES // 2, 10 if q else 100, 25, ["-epochs", "-failopen"])
+    # strict mode: simulated unclean shutdowns (garbage appended, bytes cut off) and recovery, with the rebuilt index and
+    # the re-derived segment meta data checked against Layer B (DRIFT only) and the recordings against Layer A
+    rejs += ctx.validate(strict_wal(ctx, "recover-strict", 4, 3 if q else 30, 150, 24, ALLFS, ["-tear"]))
     rejs += wal_replay(ctx, "gen_wal_crash5", "crash5", "crash", 200 if q else 4000, extra=["-twice", "-depth", "1"],
                        want=lambda b: sum(1 for e in b if e["op"] in ("crash", "tornput")) >= 1)
     if not q:
@@ -371,6 +374,9 @@ def c07(ctx):
     outs = stress_jobs(ctx, "stress", 12, 20 if q else 300, 14, 4, ALLFS, ["-maint", "-syncw"], workers=3)
     outs += stress_jobs(ctx, "stress-bg", 4, 10 if q else 150, 14, 3, ("osmmap", "os", "mem", "crashfs"), ["-maint", "-bg"], workers=3)
     outs += stress_jobs(ctx, "stress-grow", 16, 4 if q else 40, 120, 800, ALLFS, ["-maint", "-grow", "-syncw"], workers=3)
+    # reads of segment/index files yield or sleep briefly BEFORE touching the file: under the code's locking this only
+    # changes timing; it widens any window in which a reader works on a file without the lock that excludes compaction
+    outs += stress_jobs(ctx, "stress-slowfs", 8, 10 if q else 150, 14, 4, ALLFS, ["-maint", "-slowfs"], workers=3)
     jobs, o2 = fault_jobs(ctx, "seq", 4, 6 if q else 60, 50, 5, ["-inject"])
     add_stats(ctx, ctx.vrun_parallel(jobs), "compact-inject")
     rejs = ctx.validate(outs + o2, dfs=True, soft_timeout=600)
@@ -378,7 +384,7 @@ def c07(ctx):
     ctx.report_rejections(rejs, describe_generic)
     h = ctx.cov["harness"]
     ctx.cov["evaluations"] = ctx.cov["events"]
-    ctx.cov["distinct_nontrivial"] = h["stress"].get("histories", 0) + h["stress-bg"].get("histories", 0) + h["stress-grow"].get("histories", 0) + h["compact-inject"].get("programs", 0)
+    ctx.cov["distinct_nontrivial"] = h["stress"].get("histories", 0) + h["stress-bg"].get("histories", 0) + h["stress-grow"].get("histories", 0) + h["stress-slowfs"].get("histories", 0) + h["compact-inject"].get("programs", 0)
     ctx.assumptions += ["invocation events are logged before the call starts and response events after it returned, under one mutex: the order of the lines respects real time, so any linearization point lies between them",
                         "no hook marks linearization points: TLC searches them (silent Lin steps), a differently structured correct implementation cannot be rejected"]
     return ctx.finish("model_checking", "free-running histories: 2-5 goroutines x 14 Put/Delete/Get/GetAppend/Has/Count calls on 3-4 hot keys with per-producer values, plus a goroutine running Compact, Sync, Backup, whole Items scans, Count, FileSize, Metrics, "
@@ -502,7 +508,11 @@ def c13(ctx):
     outs2 = seq_jobs(ctx, "db-sessions", 4, 4 if q else 30, 60, 8, ALLFS, ["-alt", "-open2"])
     jobs3, outs3 = fault_jobs(ctx, "crash", 4, 4 if q else 30, 20, 6, ["-epochs", "-open2", "-failopen"])
     add_stats(ctx, ctx.vrun_parallel(jobs3), "db-crash-chains")
-    rejs2 = ctx.validate(outs2 + outs3)
+    # sessions whose Close fails half-way with an injected file-system error (the process exits, the directory is
+    # opened again): a session that did not complete Close is recovered, whatever Close did before it failed
+    jobs4, outs4 = fault_jobs(ctx, "seq", 4, 6 if q else 60, 60, 10, ["-sessions", "-failclose"])
+    add_stats(ctx, ctx.vrun_parallel(jobs4), "db-failed-close")
+    rejs2 = ctx.validate(outs2 + outs3 + outs4)
     ctx.report_rejections(rejs, describe_lock)
     ctx.report_rejections(rejs2, describe_generic)
     h = ctx.cov["harness"]
